@@ -166,9 +166,9 @@ def r2(run, tier, table, levelb):
     run.note("levelB_rows_exact", exact)
     run.note("levelB_rows_within_one_step", near)
     # the CLI configuration itself: `osaca --arch` with the family model placed in a private user
-    # data directory; totals parsed from the report (all kernels in the thorough tier)
+    # data directory; totals parsed from the report (every 5th kernel in the thorough tier, every 31st in the quick tier)
     home = pc.cli_home("port-c02-cli", model)
-    step = 1 if tier == "thorough" else 31
+    step = 5 if tier == "thorough" else 31
     sel = recs[::step]
     got = pc.cli_many(home, "zen1", [(r["cid"], r["text"]) for r in sel], 3)
     clirecs = []
